@@ -26,10 +26,15 @@ func main() {
 	cpuprof := flag.String("cpuprofile", "", "write a CPU profile")
 	harness := flag.String("harness", "", "directory of the harness module (for the native fuzz targets)")
 	modfile := flag.String("modfile", "", "alternative go.mod for builds started by the worker")
+	probe := flag.String("devprobe", "", "run client.GetRawQuote through the real LinuxDevice opened on this path, print the outcome, exit")
 	freeze := flag.String("freeze-world", "", "write a frozen honest case (for the fuzz targets) and exit")
 	flag.Parse()
 	debug.SetGCPercent(400)
 	mon.HarnessDir, mon.ModFile = *harness, *modfile
+	if *probe != "" {
+		devProbe(*probe)
+		return
+	}
 	if *freeze != "" {
 		if err := freezeWorld(*freeze); err != nil {
 			fmt.Println(err)
